@@ -368,7 +368,7 @@ def pit_fill_order(ctx):
     import ast
     import os
     comps = classes.all_component_classes()
-    ctx.decided("component-classes-found", "cover", len(comps) >= 12, witness=str(len(comps)))
+    ctx.structural("component-classes-found", "cover", len(comps) >= 12, witness=str(len(comps)))
     node_names = ("node_pit", "junction_pit")
     writers, readers = {}, {}
     for c in comps:
@@ -390,7 +390,7 @@ def pit_fill_order(ctx):
                     mode = ast.unparse(n.args[-1]).strip("'\"")
                     writers.setdefault("PINIT" if mode == "p" else "TINIT_NODE", set()).add(c.name)
                     writers.setdefault("PINIT" if mode == "p" else "TINIT", set()).add(c.name)
-    ctx.decided("readers-and-writers-found", "cover", len(readers) >= 3 and len(writers) >= 3, witness=str((sorted(readers), sorted(writers))))
+    ctx.structural("readers-and-writers-found", "cover", len(readers) >= 3 and len(writers) >= 3, witness=str((sorted(readers), sorted(writers))))
     exempt = {"PINIT", "MDOTINIT"}
     for col in sorted(readers):
         base = col.replace("_NODE", "")
